@@ -79,6 +79,32 @@ def register_inst(tier):
                 replay={'kind': 'register_full_table', 'no_inputs': True})
 
 
+def register_refused_inst(tier):
+    """register_callback under L-throw: the backend may refuse (no free entry point: an exception out of impl_register_callback), and
+    each abort point throws; a refused registration leaves the key list exactly as it was and hands out no owner"""
+    base = register_inst(tier)
+    dyn = ('dynamic_check(throws when the check fails)', _is('dynamic_check'), '__CPROVER_ensures(g_exc == !$0)\n__CPROVER_assigns(g_exc)')
+    be = ('backend impl_register_callback(may refuse by throwing)', BE_REG_GUEST[1],
+          '__CPROVER_ensures(g_be_regs == __CPROVER_old(g_be_regs) + 1 && g_be_reg_key == (unsigned long)$0)\n'
+          '__CPROVER_ensures(g_exc || ((unsigned long)$ret == g_be_reg_result && g_be_reg_result != 0))\n'
+          '__CPROVER_assigns(g_be_reg_key, g_be_regs, g_exc)')
+    keep = [c for c in base.contract if c[1].startswith('__CPROVER_requires') and c[0] != 'noabort_pre']
+    cl = keep + [
+        ('no_exception_in_flight_at_entry', '__CPROVER_requires(!g_exc)'),
+        ('a_refused_registration_leaves_no_key_behind', '__CPROVER_ensures(g_exc ==> (%s.len == __CPROVER_old(%s.len) && (0 < %s.len ==> %s.elem[0] == __CPROVER_old(%s.elem[0])) && (1 < %s.len ==> %s.elem[1] == __CPROVER_old(%s.elem[1]))))' % ((K,) * 8)),
+        ('an_accepted_registration_records_the_key', '__CPROVER_ensures(!g_exc ==> (%s.len == __CPROVER_old(%s.len) + 1 && %s.elem[%s.len - 1] == (void *)$0))' % (K, K, K, K)),
+        ('frame', '__CPROVER_assigns(%s.len, __CPROVER_object_whole(%s.elem), g_be_reg_key, g_be_regs, g_exc)' % (K, K))]
+    base.contract = cl
+    base.name = 'c13_register_callback_refused_by_the_backend'
+    base.leaves = [dyn, be, BE_REG_OTHER, INTERCEPTOR]
+    base.opts = dict(base.opts, exc_model=True)
+    base.pre = base.pre + ' _Bool g_exc;\n'
+    base.harness = base.harness.replace('g_be_regs = 0;', 'g_be_regs = 0; g_exc = 0;', 1)
+    base.replay = {'kind': 'register_refused', 'no_inputs': True}
+    base.note = 'L-throw: the backend refuses by throwing (A_backend after e34344b: aborts when no entry point is free)'
+    return base
+
+
 def unregister_cb_inst(tier):
     once = ('(g_pos < %s.len && %s.elem[g_pos] == $0 && (g_pos != 0 && 0 < %s.len ==> %s.elem[0] != $0) && (g_pos != 1 && 1 < %s.len ==> %s.elem[1] != $0))' % (K, K, K, K, K, K))
     cl = [('obj', '__CPROVER_requires(__CPROVER_rw_ok($this, sizeof(struct %s)))' % SB),
@@ -179,7 +205,7 @@ def backend_entry_point_inst(tier):
 
 
 def units(tier):
-    return [Unit('C13_callback_ownership', [register_inst(tier), unregister_cb_inst(tier), destroy_keeps_registrations_inst(tier), backend_entry_point_inst(tier)] + owner_insts(tier) +
+    return [Unit('C13_callback_ownership', [register_inst(tier), register_refused_inst(tier), unregister_cb_inst(tier), destroy_keeps_registrations_inst(tier), backend_entry_point_inst(tier)] + owner_insts(tier) +
                  [trait_inst('c13_owner_is_not_copyable', PROP, 'std::is_copy_constructible_v<sandbox_callback<int (*)(long), vsbx>> || std::is_copy_assignable_v<sandbox_callback<int (*)(long), vsbx>>', 0,
                              'a_registration_owner_cannot_be_copied', tier)])]
 
